@@ -1054,6 +1054,70 @@ def operations():
         return (op.size(), op.shape, op.dim(), op.numel(), op.batch_shape, op.matrix_shape, op.size(-1), op.size(-2), op.is_square,
                 op.dtype, op.device, op.requires_grad, repr(op), len(op.representation()))
 
+    # ---- tensor indices with NEGATIVE entries (normalised by __getitem__ for every index component)
+    def idx_t(vals, L, expanded0=False):
+        t = L(torch.tensor(vals))
+        while t.dim() > 1:
+            t = t[0]
+        return t
+
+    @reg("getitem_neg_tensor_rows")
+    def _(op, D, L, A):
+        m = op.shape[-2]
+        A["i"] = idx_t([0, -1, min(2, m - 1), -m], L)
+        return op[..., A["i"], :].to_dense()
+
+    @reg("getitem_neg_tensor_cols")
+    def _(op, D, L, A):
+        n = op.shape[-1]
+        A["j"] = idx_t([-1, 0, -n, min(1, n - 1)], L)
+        return op[..., :, A["j"]].to_dense()
+
+    @reg("getitem_neg_tensor_both")
+    def _(op, D, L, A):
+        m, n = op.shape[-2:]
+        A["i"], A["j"] = idx_t([0, -1, -m], L), idx_t([-n, 0, -1], L)
+        return op[..., A["i"], A["j"]]
+
+    @reg("getitem_neg_tensor_row_int_col")
+    def _(op, D, L, A):
+        m = op.shape[-2]
+        A["i"] = idx_t([-1, 0, -2], L)
+        r = op[..., A["i"], -1]
+        return r.to_dense() if hasattr(r, "to_dense") else r
+
+    @reg("getitem_neg_tensor_stride0_and_view")
+    def _(op, D, L, A):
+        m, n = op.shape[-2:]
+        A["i"] = torch.tensor([-1]).expand(3)                    # stride-0 index tensor
+        A["buf"] = torch.tensor([5, -1, -n, 0, -2, 7])
+        A["j"] = A["buf"][1:4]                                   # view into a larger caller buffer
+        r1 = op[..., A["i"], :]
+        r2 = op[..., :, A["j"]]
+        return r1.to_dense() + r2.to_dense().sum()
+
+    @reg("getitem_neg_tensor_batch")
+    def _(op, D, L, A):
+        if len(op.shape) < 3:
+            return None
+        b = op.shape[0]
+        A["b"] = idx_t([-1, 0, -b], L)
+        m, n = op.shape[-2:]
+        A["i"], A["j"] = idx_t([-1, 0, -m], L), idx_t([0, -n, -1], L)
+        r1 = op[A["b"]]
+        r2 = op[(A["b"],) + (slice(None),) * (len(op.shape) - 3) + (A["i"], A["j"])]
+        r3 = op[(A["b"],) + (slice(None),) * (len(op.shape) - 3) + (A["i"], slice(None))]
+        return r1.to_dense().sum() + r2.sum() + r3.to_dense().sum()
+
+    @reg("getitem_neg_2d_index_tensor")
+    def _(op, D, L, A):
+        m, n = op.shape[-2:]
+        A["i"] = L(torch.tensor([[0, -1], [-m, 0]]))
+        if A["i"].dim() > 2:
+            A["i"] = A["i"][0]
+        A["j"] = torch.tensor([[-1], [-n]])
+        return op[..., A["i"], A["j"]]
+
     return OPS
 
 
@@ -1441,7 +1505,7 @@ BUILDERS = OPS = UTILS = None
 NESTED = set()     # builders of Identity/Zero-based nestings
 RECT = set()       # rectangular / unequal-batch instances
 # operations run on the nestings in the quick tier (everything in thorough)
-NESTED_QUICK_OPS = {"mT", "transpose_dims", "sum_rows", "sum_cols", "matmul_op_op", "matmul", "matmul_vec", "rmatmul", "t_matmul", "solve", "solve_left", "solve_cg", "solve_vec_cg", "inv_quad",
+NESTED_QUICK_OPS = {"getitem_neg_tensor_rows", "getitem_neg_tensor_both", "getitem_neg_tensor_stride0_and_view", "mT", "transpose_dims", "sum_rows", "sum_cols", "matmul_op_op", "matmul", "matmul_vec", "rmatmul", "t_matmul", "solve", "solve_left", "solve_cg", "solve_vec_cg", "inv_quad",
                     "inv_quad_logdet", "inv_quad_logdet_cg", "sqrt_inv_matmul", "backward_sqrt_inv_matmul", "root_decomposition_lanczos",
                     "add_low_rank", "zero_mean_mvn_samples", "diagonalization_lanczos", "backward_solve_cg", "backward_inv_quad_logdet",
                     "matmul_identity_rhs", "root_inv_decomposition_lanczos", "pivoted_cholesky", "mul_op"}
@@ -1536,7 +1600,171 @@ def execute(kind, name, opname, layout, seed):
     return {"status": status, "problems": problems, "writes": wl.writes, "born": wl.born}
 
 
+# ----------------------------------------------------------------------------- multi-step histories
+def memo_methods():
+    """memoised / cache-using methods; each returns whatever it hands to the caller"""
+    from linear_operator import settings
+    M = {
+        "svd": lambda K: K.svd(),
+        "eigh": lambda K: K.eigh(),
+        "eigvalsh": lambda K: K.eigvalsh(),
+        "diagonalization": lambda K: K.diagonalization(),
+        "diagonalization_lanczos": lambda K: K.diagonalization(method="lanczos"),
+        "cholesky": lambda K: K.cholesky(),
+        "cholesky_upper": lambda K: K.cholesky(upper=True),
+        "root_decomposition": lambda K: K.root_decomposition(),
+        "root_decomposition_symeig": lambda K: K.root_decomposition(method="symeig"),
+        "root_decomposition_lanczos": lambda K: K.root_decomposition(method="lanczos"),
+        "root_decomposition_pivchol": lambda K: K.root_decomposition(method="pivoted_cholesky"),
+        "root_inv_decomposition": lambda K: K.root_inv_decomposition(),
+        "root_inv_decomposition_symeig": lambda K: K.root_inv_decomposition(method="symeig"),
+        "to_dense": lambda K: K.to_dense(),
+        "diagonal": lambda K: K.diagonal(),
+        "logdet": lambda K: K.logdet(),
+        "solve": lambda K: K.solve(torch.ones(K.shape[-1], 1, dtype=torch.float64)),
+        "inv_quad_logdet": lambda K: K.inv_quad_logdet(torch.ones(K.shape[-1], 1, dtype=torch.float64), logdet=True),
+        "pivoted_cholesky": lambda K: K.pivoted_cholesky(rank=2),
+        "preconditioner": lambda K: K._preconditioner()[1:],
+        "mT": lambda K: K.mT,
+        "matmul": lambda K: K.matmul(torch.ones(K.shape[-1], 2, dtype=torch.float64)),
+    }
+
+    def cg(f):
+        def g(K):
+            with settings.max_cholesky_size(0), settings.max_cg_iterations(25), settings.num_trace_samples(3):
+                return f(K)
+        return g
+    M["solve_cg"] = cg(M["solve"])
+    M["inv_quad_logdet_slq"] = cg(M["inv_quad_logdet"])
+    M["root_decomposition_cg_size"] = cg(M["root_decomposition"])
+    return M
+
+
+def derivations():
+    """derived operator from an existing one (shares tensors / caches with the original in many classes)"""
+    import linear_operator.operators as O
+
+    def n(K):
+        return K.shape[-1]
+    return {
+        "add_jitter": lambda K, D: K.add_jitter(0.5),
+        "add_diagonal_scalar": lambda K, D: K.add_diagonal(torch.tensor(0.5, dtype=torch.float64)),
+        "add_diagonal_one_elem": lambda K, D: K.add_diagonal(torch.tensor([0.5], dtype=torch.float64)),
+        "add_diagonal_full": lambda K, D: K.add_diagonal(D.pos(n(K))),
+        "plus_constdiag": lambda K, D: K + O.ConstantDiagLinearOperator(torch.tensor([0.5], dtype=torch.float64), diag_shape=n(K)),
+        "plus_diag": lambda K, D: K + O.DiagLinearOperator(D.pos(n(K))),
+        "plus_self": lambda K, D: K + K,
+        "mul_const": lambda K, D: K * 2.0,
+        "mul_tensor_const": lambda K, D: K * torch.tensor(2.0, dtype=torch.float64),
+        "matmul_self": lambda K, D: K @ K,
+        "mT": lambda K, D: K.mT,
+        "getitem_full": lambda K, D: K[..., :, :],
+        "getitem_sub": lambda K, D: K[..., :3, :3],
+        "rebuild": lambda K, D: K.representation_tree()(*K.representation()),
+        "detach": lambda K, D: K.detach(),
+        "expand": lambda K, D: K.expand(2, *K.shape),
+        "unsqueeze": lambda K, D: K.unsqueeze(0),
+        "add_low_rank": lambda K, D: K.add_low_rank(0.1 * D.mat(n(K), 1)),
+        "cat_rows": lambda K, D: K.cat_rows(0.1 * D.mat(1, n(K)), torch.tensor([[3.0]], dtype=torch.float64)),
+        "cholesky_of": lambda K, D: K.cholesky(),
+        "root_of": lambda K, D: K.root_decomposition(),
+        "inverse_root_of": lambda K, D: K.root_inv_decomposition(),
+        "identity_same_object": lambda K, D: K,
+    }
+
+
+def reachable_tensors(obj, path="K", out=None, seen=None, depth=0):
+    """every tensor reachable from an object: defining tensors, cached results (memoize cache, *_memo, *_cache, …),
+    nested sub-operators and containers — these are all objects a caller can hold"""
+    from linear_operator.operators import LinearOperator
+    out = {} if out is None else out
+    seen = set() if seen is None else seen
+    if id(obj) in seen or depth > 8:
+        return out
+    seen.add(id(obj))
+    if isinstance(obj, torch.Tensor):
+        if not obj.is_sparse and obj.numel() > 0:
+            out[path] = obj
+    elif isinstance(obj, LinearOperator):
+        for k, v in sorted(vars(obj).items()):
+            reachable_tensors(v, f"{path}.{k}", out, seen, depth + 1)
+    elif isinstance(obj, (list, tuple)):
+        for i, v in enumerate(obj):
+            reachable_tensors(v, f"{path}[{i}]", out, seen, depth + 1)
+    elif isinstance(obj, dict):
+        for k, v in sorted(obj.items(), key=lambda kv: repr(kv[0])):
+            key = k if isinstance(k, str) else (k[0] if isinstance(k, tuple) and k and isinstance(k[0], str) else repr(k)[:30])
+            reachable_tensors(v, f"{path}{{{key}}}", out, seen, depth + 1)
+    return out
+
+
+MEMO = DERIV = None
+
+
+def execute_history(name, deriv, layout, seed):
+    """step 1: every memoised method on the ORIGINAL operator K (results kept);  step 2: every method on an operator DERIVED
+    from K;  step 3: everything handed out in step 1 and every tensor reachable from K (its caches and those of all nested
+    sub-operators) is compared with its snapshot; K's python-level state and cache-free densification as well."""
+    global MEMO, DERIV
+    _init_tables()
+    if MEMO is None:
+        MEMO, DERIV = memo_methods(), derivations()
+    D = Data(seed)
+    problems, status = [], "ok"
+    try:
+        f, psd = BUILDERS[name]
+        K, tensors = f(D, lambda t: relayout(t, layout))
+    except Exception as e:
+        return {"status": "build-error:" + type(e).__name__, "problems": [], "writes": [], "born": {}}
+    kept = {}
+    for mname, m in MEMO.items():
+        try:
+            torch.manual_seed(seed % 1000)
+            kept[mname] = m(K)
+        except Exception:
+            pass
+    handed = reachable_tensors(kept, "step1")
+    handed.update(reachable_tensors(K, "K"))
+    handed.update({f"op.{k}": v for k, v in tensors.items() if isinstance(v, torch.Tensor)})
+    snap = snapshot(handed)
+    state0, fd0 = op_state(K), fresh_dense(K)
+    prot = {}
+    for k, v in handed.items():
+        prot.setdefault(sptr(v), k)
+    wl = WriteLogger(prot)
+    ran = 0
+    with wl:
+        try:
+            Dv = DERIV[deriv](K, D)
+        except Exception as e:
+            Dv, status = None, "raised:" + type(e).__name__
+        if Dv is not None:
+            for mname, m in MEMO.items():
+                try:
+                    torch.manual_seed(seed % 1000)
+                    m(Dv)
+                    ran += 1
+                except Exception:
+                    pass
+    problems += diff_snapshot(snap, handed)
+    d = diff_state(state0, op_state(K), "K")
+    if d:
+        problems.append("operator state changed: " + d)
+    if fd0 is not None:
+        fd1 = fresh_dense(K)
+        if fd1 is None or fd1.shape != fd0.shape or not torch.allclose(fd1, fd0, rtol=1e-9, atol=1e-11, equal_nan=True):
+            problems.append("operator: cache-free re-densification K._matmul(I) changed")
+    for rel, line, opn, p, pname in wl.writes:
+        if rel is None:
+            continue
+        if pname is not None and not any(x.startswith(pname + ":") for x in problems):
+            problems.append(f"{pname}: aten write {opn} into a tensor previously handed to the caller / cached on K at {rel}:{line}")
+    return {"status": status if ran or status != "ok" else "raised:all-methods", "problems": problems, "writes": wl.writes, "born": wl.born}
+
+
 def cell_id(kind, name, opname, layout):
+    if kind == "hist":
+        return f"C13/hist/{name}/{opname}/{layout}"
     return f"C13/dyn/{name}/{opname}/{layout}" if kind == "op" else f"C13/dyn/util/{name}/{layout}"
 
 
@@ -1626,12 +1854,25 @@ def run(chk, only=None):
     for name, (g, layouts) in UTILS.items():
         for layout in layouts:
             cases.append(("util", name, None, layout))
+    # multi-step histories: memoised methods on K, then methods on an operator derived from K
+    derivs = list(derivations())
+    for name, (f, psd) in BUILDERS.items():
+        if not psd:
+            continue
+        if thorough:
+            dl = [(d, lay) for d in derivs for lay in ("contig", "slice")]
+        elif name in NESTED:
+            dl = [(d, "contig") for d in ("add_jitter", "plus_diag", "mul_const", "mT")] + [(chk.rng.choice(derivs), "slice")]
+        else:
+            dl = [(d, "contig") for d in derivs]
+        for d, lay in dl:
+            cases.append(("hist", name, d, lay))
     if only:
         cases = [c for c in cases if only(c)]
     unmatched = {}
     for kind, name, opname, layout in cases:
         for seed in seeds:
-            r = execute(kind, name, opname, layout, seed)
+            r = execute_history(name, opname, layout, seed) if kind == "hist" else execute(kind, name, opname, layout, seed)
             cell = cell_id(kind, name, opname, layout)
             ok = r["status"] == "ok"
             chk.case(f"{cell} seed={seed}", nontrivial=ok)
@@ -1687,7 +1928,8 @@ def replay(chk, payload):
     if not p or "kind" not in p:
         print("replay names broken obligations only:", json.dumps(payload.get("payload"))[:3000])
         return run(chk)
-    r = execute(p["kind"], p["name"], p["op"], p["layout"], p["seed"])
+    r = execute_history(p["name"], p["op"], p["layout"], p["seed"]) if p["kind"] == "hist" else \
+        execute(p["kind"], p["name"], p["op"], p["layout"], p["seed"])
     cell = cell_id(p["kind"], p["name"], p["op"], p["layout"])
     chk.case(f"{cell} seed={p['seed']}")
     print("status:", r["status"])
